@@ -866,9 +866,9 @@ def b_max(I, *args, **kw):
         if isinstance(a, Sym) or isinstance(b, Sym):
             isf = "float" in (num_ty(a), num_ty(b))
             cv = zreal if isf else zint
-            if I.ctx.entails(cv(b) > cv(a)):
+            if I.ctx.entails(cv(b) >= cv(a), 250):
                 return b
-            if I.ctx.entails(cv(b) <= cv(a)):
+            if I.ctx.entails(cv(b) <= cv(a), 250):
                 return a
             return concretize(Sym(z3.If(cv(b) > cv(a), cv(b), cv(a)), "float" if isf else "int"))
         return b if b > a else a
@@ -892,9 +892,9 @@ def b_min(I, *args, **kw):
         if isinstance(a, Sym) or isinstance(b, Sym):
             isf = "float" in (num_ty(a), num_ty(b))
             cv = zreal if isf else zint
-            if I.ctx.entails(cv(b) < cv(a)):
+            if I.ctx.entails(cv(b) <= cv(a), 250):
                 return b
-            if I.ctx.entails(cv(b) >= cv(a)):
+            if I.ctx.entails(cv(b) >= cv(a), 250):
                 return a
             return concretize(Sym(z3.If(cv(b) < cv(a), cv(b), cv(a)), "float" if isf else "int"))
         return b if b < a else a
